@@ -9,6 +9,7 @@ import (
 	"runtime"
 	"strings"
 	"sync"
+	"sync/atomic"
 	"testing/synctest"
 	"time"
 
@@ -47,14 +48,21 @@ type critPanic struct{ msg string }
 
 type critHandler struct{ trace bool }
 
+// journalFailed is set when Stop logs that the pathdb journal could not be written
+// (the only way to observe it: BlockChain.Stop swallows the error).
+var journalFailed atomic.Value
+
 func (h critHandler) Enabled(_ context.Context, l slog.Level) bool {
-	return l >= log.LevelCrit || (h.trace && l >= slog.LevelInfo)
+	return l >= slog.LevelInfo || (h.trace && traceDebug)
 }
 func (h critHandler) Handle(_ context.Context, r slog.Record) error {
 	if r.Level >= log.LevelCrit {
 		msg := r.Message
 		r.Attrs(func(a slog.Attr) bool { msg += " " + a.Key + "=" + fmt.Sprint(a.Value.Any()); return true })
 		panic(critPanic{msg})
+	}
+	if r.Message == "Failed to journal in-memory trie nodes" {
+		r.Attrs(func(a slog.Attr) bool { journalFailed.Store(fmt.Sprint(a.Value.Any())); return false })
 	}
 	if h.trace {
 		msg := r.Message
@@ -69,7 +77,8 @@ func (h critHandler) WithGroup(string) slog.Handler      { return h }
 var prologueOnce sync.Once
 
 var traceOn = os.Getenv("VERIF_TRACE") != ""
-var traceLogs = os.Getenv("VERIF_TRACE") == "2"
+var traceDebug = os.Getenv("VERIF_TRACE") == "3"
+var traceLogs = os.Getenv("VERIF_TRACE") == "2" || traceDebug
 
 // prologue forces process-wide singletons before the first bubble and installs the
 // log handler that turns log.Crit into a panic.
@@ -203,6 +212,7 @@ type world struct {
 	// node of the block whose log was announced twice (classification of a finding)
 	dupLogBlock   int
 	missLogBlocks []int // nodes whose logs were never announced
+	silentDrop    bool  // an InsertChain returned nil without importing its batch
 }
 
 type logKey struct {
